@@ -54,6 +54,11 @@ def handleSig (_D : Dev) : List String → Option String
       | some q => toString (ecdsaVerify q (beVal z) r s)
       | none => "false"
     pure (two res res)
+  | ["der_enc", r, s] => do
+    let r ← r.toNat?
+    let s ← s.toNat?
+    let e := toHex (derEncode r s)
+    pure (two e e)
   | ["der_dec", h] => do
     let b ← ofHex h
     let r := match derDecode b with
